@@ -265,13 +265,26 @@ int main(int argc, char** argv) {
       if (!m) { end_case(); continue; }
       if (m->opt.enableflags & mjENBL_SLEEP && m->opt.integrator == mjINT_RK4) { mj_deleteModel(m); end_case(); continue; }
       mjData* d = mu::make_data(m, s);
-      g_scenario = mdesc + " calls:";
+      // tight-memory runs: the arena is cut to a seeded fraction of what a forward pass needs, so that the calls below take the engine's
+      // exhaustion paths (warnings, truncated constraint sets, caught errors) - the stack discipline must hold on those paths too
+      bool tight = r.chance(0.35);
+      if (tight) {
+        bool e0 = ND_GUARD({ mj_forward(m, d); });
+        size_t need = e0 ? 0 : (size_t)d->maxuse_arena;
+        mu::dispose(d);
+        if (need < 256) { tight = false; }
+        else { m->narena = (mjtSize)(((size_t)(need * r.uniform(0.25, 1.02)) + 64) & ~(size_t)7); count("tight_arena_cases"); }
+        d = nullptr;
+        bool e1 = ND_GUARD({ d = mu::make_data(m, s); });     // (mj_makeData itself runs tendon kinematics on the stack)
+        if (e1 || !d) { count("tight_arena_too_small_for_makeData"); mj_deleteModel(m); end_case(); continue; }
+      }
+      g_scenario = mdesc + (tight ? " [tight arena " + std::to_string((long)m->narena) + "]" : "") + " calls:";
       int nc = r.range(3, 12);
       uint64_t sig = fnv_str(mdesc);
       // optionally call from inside an open frame of the caller (engine calls nest inside user frames)
       bool outer = r.chance(0.4);
       bool ended = false;
-      if (outer) { mj_markStack(d); mj_stackAllocByte(d, (size_t)r.range(1, 300), 8); }
+      if (outer) { bool eo; size_t osz = (size_t)r.range(1, 300); GUARD_INLINE(eo, { mj_markStack(d); mj_stackAllocByte(d, osz, 8); }); if (eo) { mu::dispose(d); mj_deleteModel(m); end_case(); continue; } }   // (no lambda: mark and free must come from the same function under ASan)
       for (int i = 0; i < nc && !ended; i++) {
         int ci = r.below((int)calls.size());
         Rng rr(r.next());
